@@ -110,6 +110,15 @@ Fixpoint type_of (v : value) : ty :=
 Definition is_named_int (sch : schema) (tn : string) : bool :=
   match tentry_of sch tn with Some (mkTentry (DInt _) _) => true | _ => false end.
 
+(* the fields of a struct value against the declared fields: same names, same order, same types *)
+Definition fields_ok (f : value -> bool) : list (string * value) -> list (string * ty) -> bool :=
+  fix go (fs : list (string * value)) (fds : list (string * ty)) {struct fs} : bool :=
+    match fs, fds with
+    | [], [] => true
+    | (n, v) :: fs', (n', t) :: fds' => String.eqb n n' && ty_eqb (type_of v) t && f v && go fs' fds'
+    | _, _ => false
+    end.
+
 (* the value is built according to the schema *)
 Fixpoint wt (sch : schema) (v : value) {struct v} : bool :=
   match v with
@@ -121,14 +130,7 @@ Fixpoint wt (sch : schema) (v : value) {struct v} : bool :=
   | VPtr v => wt sch v
   | VStruct tn fs =>
       match tentry_of sch tn with
-      | Some (mkTentry (DStruct fds) _) =>
-          (fix go (fs : list (string * value)) (fds : list (string * ty)) {struct fs} : bool :=
-             match fs, fds with
-             | [], [] => true
-             | (n, v) :: fs', (n', t) :: fds' =>
-                 String.eqb n n' && ty_eqb (type_of v) t && wt sch v && go fs' fds'
-             | _, _ => false
-             end) fs fds
+      | Some (mkTentry (DStruct fds) _) => fields_ok (wt sch) fs fds
       | _ => false
       end
   | VSlice et l => forallb (fun v => ty_eqb (type_of v) et && wt sch v) l
@@ -162,8 +164,9 @@ Definition zero_of (sch : schema) (t : ty) : option value :=
   end.
 
 Definition status_name (sch : schema) (z : Z) : string :=
-  if (z <? 0)%Z then sch_status_unknown sch
-  else nth (Z.to_nat z) (sch_status_names sch) (sch_status_unknown sch).
+  if ((0 <=? z) && (z <? Z.of_nat (List.length (sch_status_names sch))))%Z
+  then nth (Z.to_nat z) (sch_status_names sch) (sch_status_unknown sch)
+  else sch_status_unknown sch.
 
 (* ------------------------------------------------------------------------------------------ *)
 (* Template AST                                                                                *)
@@ -430,8 +433,9 @@ Definition index_one (sch : schema) (item key : value) : result value :=
       end
   | Some (VSlice _ l) =>
       match key with
-      | VInt _ i => if (i <? 0)%Z then Err "index out of range"
-                    else match nth_error l (Z.to_nat i) with Some x => Ok x | None => Err "index out of range" end
+      | VInt _ i => if ((0 <=? i) && (i <? Z.of_nat (List.length l)))%Z
+                    then match nth_error l (Z.to_nat i) with Some x => Ok x | None => Err "index out of range" end
+                    else Err "index out of range"
       | _ => Err "cannot index slice with this type"
       end
   | Some _ => Err "can't index item"
@@ -595,45 +599,38 @@ Definition truth (v : value) : result bool :=
 
 (* --- execution ----------------------------------------------------------------------------- *)
 
+Definition seq_exec (f : node -> value -> result (list piece)) : list node -> value -> result (list piece) :=
+  fix go (ns : list node) (dot : value) {struct ns} : result (list piece) :=
+    match ns with
+    | [] => Ok []
+    | n :: r => bind (f n dot) (fun o1 => bind (go r dot) (fun o2 => Ok (o1 ++ o2)))
+    end.
+
+Definition loop_exec (f : value -> result (list piece)) : list value -> result (list piece) :=
+  fix go (l : list value) : result (list piece) :=
+    match l with
+    | [] => Ok []
+    | x :: r => bind (f x) (fun o1 => bind (go r) (fun o2 => Ok (o1 ++ o2)))
+    end.
+
 Fixpoint exec_node (sch : schema) (n : node) (dot : value) {struct n} : result (list piece) :=
-  let exec_list :=
-    fix exec_list (ns : list node) (dot : value) {struct ns} : result (list piece) :=
-      match ns with
-      | [] => Ok []
-      | n :: r => bind (exec_node sch n dot) (fun o1 => bind (exec_list r dot) (fun o2 => Ok (o1 ++ o2)))
-      end in
   match n with
   | NText s => Ok [Lit s]
   | NAction p => bind (eval_pipe sch dot p) (fun v => Ok (print_value sch true v))
   | NIf p th el =>
       bind (eval_pipe sch dot p) (fun v => bind (truth v) (fun b =>
-      if b then exec_list th dot else exec_list el dot))
+      if b then seq_exec (exec_node sch) th dot else seq_exec (exec_node sch) el dot))
   | NRange p body el =>
       bind (eval_pipe sch dot p) (fun v =>
       match indirect v with
-      | Some (VSlice _ []) => exec_list el dot
-      | Some (VSlice _ l) =>
-          (fix loop (l : list value) : result (list piece) :=
-             match l with
-             | [] => Ok []
-             | x :: r => bind (exec_list body x) (fun o1 => bind (loop r) (fun o2 => Ok (o1 ++ o2)))
-             end) l
+      | Some (VSlice _ []) => seq_exec (exec_node sch) el dot
+      | Some (VSlice _ l) => loop_exec (seq_exec (exec_node sch) body) l
       | _ => Err "range over a value that is not a slice"
       end)
   | NOther w => Err ("construct not modelled: " ++ w)%string
   end.
 
-Fixpoint exec_list (sch : schema) (ns : list node) (dot : value) {struct ns} : result (list piece) :=
-  match ns with
-  | [] => Ok []
-  | n :: r => bind (exec_node sch n dot) (fun o1 => bind (exec_list sch r dot) (fun o2 => Ok (o1 ++ o2)))
-  end.
-
-Fixpoint exec_loop (sch : schema) (body : list node) (l : list value) : result (list piece) :=
-  match l with
-  | [] => Ok []
-  | x :: r => bind (exec_list sch body x) (fun o1 => bind (exec_loop sch body r) (fun o2 => Ok (o1 ++ o2)))
-  end.
+Definition exec_list (sch : schema) : list node -> value -> result (list piece) := seq_exec (exec_node sch).
 
 Definition tmpl := list node.
 Definition exec (sch : schema) (t : tmpl) (d : value) : result (list piece) := exec_list sch t d.
@@ -776,11 +773,6 @@ Definition ty_call (sch : schema) (facts : list path) (dot : sty) (name : string
   | Some FJson, [a], None =>
       match ty_operand sch facts dot a with Some _ => Some (mkSty TStr None true) | None => None end
   | Some FJson, [], Some _ => Some (mkSty TStr None true)
-  | Some FMaxlag, [a], None =>
-      match ty_operand sch facts dot a with
-      | Some sa => if ty_eqb (s_ty sa) (TPtr (TNamed "PartitionStatus")) then Some (mkSty (TInt "uint64") None false) else None
-      | None => None
-      end
   | _, _, _ => None
   end.
 
@@ -815,33 +807,27 @@ Definition truth_ok (sch : schema) (t : ty) : bool :=
   end.
 
 Fixpoint check_node (sch : schema) (facts : list path) (dot : sty) (n : node) {struct n} : bool :=
-  let check_list :=
-    fix check_list (ns : list node) (dot : sty) {struct ns} : bool :=
-      match ns with
-      | [] => true
-      | n :: r => check_node sch facts dot n && check_list r dot
-      end in
   match n with
   | NText _ => true
   | NAction p => match ty_pipe sch facts dot p with Some _ => true | None => false end
   | NIf p th el =>
       match ty_pipe sch facts dot p with
-      | Some st => truth_ok sch (s_ty st) && check_list th dot && check_list el dot
+      | Some st => truth_ok sch (s_ty st) && forallb (check_node sch facts dot) th
+                   && forallb (check_node sch facts dot) el
       | None => false
       end
   | NRange p body el =>
       match ty_pipe sch facts dot p with
-      | Some (mkSty (TSlice et) pa _) => check_list body (mkSty et (path_app pa PElem) false) && check_list el dot
+      | Some (mkSty (TSlice et) pa _) =>
+          forallb (check_node sch facts (mkSty et (path_app pa PElem) false)) body
+          && forallb (check_node sch facts dot) el
       | _ => false
       end
   | NOther _ => false
   end.
 
-Fixpoint check_list (sch : schema) (facts : list path) (dot : sty) (ns : list node) {struct ns} : bool :=
-  match ns with
-  | [] => true
-  | n :: r => check_node sch facts dot n && check_list sch facts dot r
-  end.
+Definition check_list (sch : schema) (facts : list path) (dot : sty) (ns : list node) : bool :=
+  forallb (check_node sch facts dot) ns.
 
 Definition root_sty (sch : schema) : sty := mkSty (TNamed (sch_root sch)) (Some []) false.
 
